@@ -59,7 +59,7 @@ def run_program(prog):
             FX.LOG.clear()
             FX.CURRENT[0] = None
             exc = None
-            final = {"systems": [], "agents": []}
+            final = {"systems": [], "agents": [], "ran": []}
             try:
                 m = JsonDecoder().decode(path)
                 for s in d["systems"]:
@@ -69,6 +69,10 @@ def run_program(prog):
                     seen.append([str(s.id), int(s.priority), int(s.frequency), int(s.start), 999999 if s.end >= 999999 else int(s.end)])
                 final["systems"] = seen
                 final["agents"] = [list(getattr(a, "where", (-1, -1))) for a in m.environment]
+                if not d.get("closed"):
+                    del FX.RAN[:]
+                    m.execute()                   # timestep 0 of the decoded model
+                    final["ran"] = list(FX.RAN)
                 if m is not FX.CURRENT[0]:
                     final["agents"].append([-7, -7])
             except Exception as e:  # noqa: BLE001
